@@ -229,6 +229,10 @@ fn node_to_text(r: &Regex, id: usize, out: &mut String) {
             out.push_str("R ");
             node_to_text(r, c.verif_index(), out);
         }
+        RegexNode::Plus(c) => {
+            out.push_str("Q ");
+            node_to_text(r, c.verif_index(), out);
+        }
     }
 }
 
